@@ -270,7 +270,7 @@ func checkC07(e *Engine, r *Report) {
 			e.InstrPos(in), c.realloc, okV, "", true)
 	})
 	// Commit moves other requests only to the zones recorded in the offer (computed by the same journaled algorithm)
-	for _, mc := range e.callsTo(c.commit, c.zoneMove) {
+	for _, mc := range e.callsTo(c.commit, c.zoneMove, c.zoneAssign) {
 		a := callArgs(mc)
 		ok := len(a) == 3 && originAll(a[1], func(v ssa.Value) bool {
 			ex, ok := v.(*ssa.Extract)
